@@ -422,7 +422,7 @@ func GenC15(seed, index uint64) *Workload {
 		n := 1 + r.Intn(3)
 		span := 20000
 		if len(w.Docs[0]) > 50000 {
-			span = 2000000
+			span = 300000
 		}
 		var gs []uint64
 		for i := 0; i < n; i++ {
